@@ -52,38 +52,5 @@ fn c14_quantum_total() {
     kani::cover!(n == 1);
 }
 
-// A reader that hands out at most `step` bytes per call (the io::Read contract allows any short read)
-struct SlowReader { data: [u8; 8], len: usize, pos: usize, step: usize }
-impl Read for SlowReader {
-    fn read(&mut self, buf: &mut [u8]) -> std::io::Result<usize> {
-        let mut n = 0;
-        while n < buf.len() && n < self.step && self.pos < self.len {
-            buf[n] = self.data[self.pos];
-            self.pos += 1;
-            n += 1;
-        }
-        Ok(n)
-    }
-}
-
-//# kind=bounded tier=thorough props=C14 bound="one quantum (4 text bytes), reader hands out 1..=4 bytes per read call, destination buffer of 3" fns=Base64Decoder::read,Base64Decoder::buffer_fill | decoding a valid quantum through a reader that returns fewer bytes than asked (any step 1..=4) yields the original three bytes, not an error (bounded twin; counterexample provider)
-#[kani::proof]
-#[kani::unwind(7)]
-fn c14_decoder_short_reads_bounded() {
-    let a: u8 = kani::any();
-    let b: u8 = kani::any();
-    let c: u8 = kani::any();
-    let q = enc3(a, b, c);
-    let step: usize = kani::any();
-    kani::assume(step >= 1 && step <= 4);
-    let reader = SlowReader { data: [q[0], q[1], q[2], q[3], 0, 0, 0, 0], len: 4, pos: 0, step };
-    let mut dec = Base64Decoder::new(reader);
-    let mut out = [0u8; 3];
-    let res = dec.read(&mut out);
-    match &res {
-        Ok(n) => assert!(*n == 3 && out[0] == a && out[1] == b && out[2] == c),
-        Err(_) => assert!(false, "valid text reported as an error"),
-    }
-    std::mem::forget(res); // keep CBMC out of the drop glue of io::Error
-    kani::cover!(step == 1);
-}
+// (a bounded CBMC twin of the decoder loop - one quantum through a 1..=4-bytes-per-read reader - did not finish in 10 min;
+//  the streaming decoder is proved in the Verus unit base64dec for every read schedule instead)
